@@ -188,7 +188,7 @@ func (rn *runner) checkModel(op *opSpec, trace string, evs []Event, states [][2]
 	r := rn.r
 	line, ok := rn.modelLine(op, post)
 	if !ok {
-		r.Fatal("cannot describe operation to the model: " + op.desc)
+		rn.fatal("cannot describe operation to the model: " + op.desc)
 	}
 	ops := append(append([]string{}, rn.modelOps...), line)
 	rn.modelOps = ops
